@@ -59,16 +59,23 @@ template <typename Q> struct Ops;
 
 template <> struct Ops<EQ>
 {
-	static void append(EQ & q, int k, int c) { q.appendListener(k, [c, k](int a) { std::printf("call %d %d %d %d\n", g_running, c, k, a); }); }
+	using Handle = EQ::Handle;
+	static Handle append(EQ & q, int k, int c) { return q.appendListener(k, [c, k](int a) { std::printf("call %d %d %d %d\n", g_running, c, k, a); }); }
+	static bool owns(EQ & q, int k, const Handle & h) { return q.ownsHandle(k, h); }
+	static bool remove(EQ & q, int k, const Handle & h) { return q.removeListener(k, h); }
 	static void dispatch(EQ & q, int k, int a) { q.dispatch(k, a); }
 	static void enqueue(EQ & q, int k, int a) { q.enqueue(k, a); }
 };
 template <> struct Ops<HEQ>
 {
-	static void append(HEQ & q, int k, int c) {
-		if(k % 2 == 0) q.appendListener(k / 2, [c, k](int a) { std::printf("call %d %d %d %d\n", g_running, c, k, a); });
-		else q.appendListener(k / 2, [c, k](int a, int) { std::printf("call %d %d %d %d\n", g_running, c, k, a); });
+	using Handle = HEQ::Handle;
+	static Handle append(HEQ & q, int k, int c) {
+		if(k % 2 == 0) return q.appendListener(k / 2, [c, k](int a) { std::printf("call %d %d %d %d\n", g_running, c, k, a); });
+		else return q.appendListener(k / 2, [c, k](int a, int) { std::printf("call %d %d %d %d\n", g_running, c, k, a); });
 	}
+	// the heterogeneous dispatcher has no ownsHandle; the generator does not ask
+	static bool owns(HEQ &, int, const Handle &) { std::printf("harness-error no ownsHandle for this kind\n"); std::fflush(stdout); std::abort(); }
+	static bool remove(HEQ & q, int k, const Handle & h) { return q.removeListener(k / 2, h); }
 	static void dispatch(HEQ & q, int k, int a) { if(k % 2 == 0) q.dispatch(k / 2, a); else q.dispatch(k / 2, a, a); }
 	static void enqueue(HEQ & q, int k, int a) { if(k % 2 == 0) q.enqueue(k / 2, a); else q.enqueue(k / 2, a, a); }
 };
@@ -95,6 +102,7 @@ struct Runner : Base
 {
 	std::vector<std::unique_ptr<Slot<Q>>> slots;
 	std::vector<NotifyGuards> guards;       // declared after slots: released before the queues are destroyed
+	std::vector<typename Ops<Q>::Handle> handles;   // the i-th append of the case fills handle register i
 	int fill;
 	Runner(int n, int fill) : fill(fill) {
 		for(int i = 0; i < n; ++i) slots.emplace_back(new Slot<Q>());
@@ -111,12 +119,18 @@ struct Runner : Base
 		return *slots[i];
 	}
 	void make(long i) { Slot<Q> & s = freeSlot(i); s.p = new (s.storage) Q(); }
+	const typename Ops<Q>::Handle & handleAt(long h) {
+		if(h < 0 || h >= (long)handles.size()) { std::printf("harness-error no handle %ld\n", h); std::fflush(stdout); std::abort(); }
+		return handles[h];
+	}
 
 	void step(const vh::Cmd & c) override
 	{
 		using vh::num;
 		const std::string & op = c[0];
-		if(op == "append") { Ops<Q>::append(at(num(c[1])), (int)num(c[2]), (int)num(c[3])); }
+		if(op == "append") { handles.push_back(Ops<Q>::append(at(num(c[1])), (int)num(c[2]), (int)num(c[3]))); }
+		else if(op == "owns") { std::printf("ret %d\n", (int)Ops<Q>::owns(at(num(c[1])), (int)num(c[2]), handleAt(num(c[3])))); }
+		else if(op == "remove") { std::printf("ret %d\n", (int)Ops<Q>::remove(at(num(c[1])), (int)num(c[2]), handleAt(num(c[3])))); }
 		else if(op == "addfilter") { addFilter(at(num(c[1])), (int)num(c[2]), c[3] == "1"); }
 		else if(op == "enqueue") { Ops<Q>::enqueue(at(num(c[1])), (int)num(c[2]), (int)num(c[3])); }
 		else if(op == "process") { g_running = (int)num(c[1]); std::printf("ret %d\n", (int)at(num(c[1])).process()); }
